@@ -44,16 +44,80 @@ pub fn read<F: Follower>(
 }
 
 // <smiles> ::= <atom> <body>*
+//
+// A chain (<union> with an atom) or a dot (<split>) continues in this
+// loop rather than in a nested call, so that only branches consume stack.
 fn read_smiles<F: Follower>(
     input: Option<BondKind>,
     scanner: &mut Scanner,
     follower: &mut F,
     trace: &mut Option<&mut Trace>
 ) -> Result<Option<usize>, Error> {
+    if !read_link(input, scanner, follower, trace)? {
+        return Ok(None)
+    }
+
+    let mut result = 1;
+
+    loop {
+        // <branch>
+        if read_branch(scanner, follower, trace)? {
+            continue
+        }
+
+        // <split> ::= <dot> <smiles>
+        if let Some('.') = scanner.peek() {
+            scanner.pop();
+
+            if read_link(None, scanner, follower, trace)? {
+                result += 1;
+
+                continue
+            } else {
+                return Err(missing_character(scanner))
+            }
+        }
+
+        // <union> ::= <bond>? ( <smiles> | <rnum> )
+        let bond_cursor = scanner.cursor();
+        let bond_kind = read_bond(scanner);
+
+        if read_link(Some(bond_kind.clone()), scanner, follower, trace)? {
+            result += 1;
+
+            continue
+        }
+
+        let cursor = scanner.cursor();
+
+        match read_rnum(scanner)? {
+            Some(rnum) => {
+                if let Some(trace) = trace {
+                    trace.join(bond_cursor, cursor..scanner.cursor(), rnum.clone())
+                }
+
+                follower.join(bond_kind, rnum)
+            },
+            None => if bond_kind == BondKind::Elided {
+                break Ok(Some(result))
+            } else {
+                return Err(missing_character(scanner))
+            }
+        }
+    }
+}
+
+// Reads one atom and reports it as a root or as an extension of head.
+fn read_link<F: Follower>(
+    input: Option<BondKind>,
+    scanner: &mut Scanner,
+    follower: &mut F,
+    trace: &mut Option<&mut Trace>
+) -> Result<bool, Error> {
     let cursor = scanner.cursor();
     let atom_kind = match read_atom(scanner)? {
         Some(kind) => kind,
-        None => return Ok(None)
+        None => return Ok(false)
     };
 
     match input {
@@ -77,14 +141,7 @@ fn read_smiles<F: Follower>(
         }
     }
 
-    let mut result = 1;
-
-    loop {
-        match read_body(scanner, follower, trace)? {
-            Some(length) => result += length,
-            None => break Ok(Some(result))
-        }
-    }
+    Ok(true)
 }
 
 // <atom> ::= <organic> | <bracket> | <star>
@@ -100,21 +157,6 @@ fn read_atom(
     }
 
     Ok(read_star(scanner))
-}
-
-// <body> ::= <branch> | <split> | <union>
-fn read_body<F: Follower>(
-    scanner: &mut Scanner, follower: &mut F, trace: &mut Option<&mut Trace>
-) -> Result<Option<usize>, Error> {
-    if read_branch(scanner, follower, trace)? {
-        return Ok(Some(0))
-    }
-
-    if let Some(length) = read_split(scanner, follower, trace)? {
-        return Ok(Some(length))
-    }
-
-    read_union(scanner, follower, trace)
 }
 
 // <branch> ::= "(" ( <dot> | <bond> )? <smiles> ")"
@@ -159,56 +201,6 @@ fn read_branch<F: Follower>(
             Ok(true)
         },
         _ => Err(missing_character(scanner))
-    }
-}
-
-// <split> ::= <dot> <smiles>
-fn read_split<F: Follower>(
-    scanner: &mut Scanner, follower: &mut F, trace: &mut Option<&mut Trace>
-) -> Result<Option<usize>, Error> {
-    match scanner.peek() {
-        Some('.') => {
-            scanner.pop();
-        },
-        _ => return Ok(None)
-    }
-
-    match read_smiles(None, scanner, follower, trace)? {
-        Some(length) => Ok(Some(length)),
-        None => Err(missing_character(scanner))
-    }
-}
-
-// <union> ::= <bond>? ( <smiles> | <rnum> )
-fn read_union<F: Follower>(
-    scanner: &mut Scanner, follower: &mut F, trace: &mut Option<&mut Trace>
-) -> Result<Option<usize>, Error> {
-    let bond_cursor = scanner.cursor();
-    let bond_kind = read_bond(scanner);
-
-    if let Some(length) = read_smiles(
-        Some(bond_kind.clone()), scanner, follower, trace
-    )? {
-        return Ok(Some(length))
-    }
-
-    let cursor = scanner.cursor();
-
-    match read_rnum(scanner)? {
-        Some(rnum) => {
-            if let Some(trace) = trace {
-                trace.join(bond_cursor, cursor..scanner.cursor(), rnum.clone())
-            }
-
-            follower.join(bond_kind, rnum);
-
-            Ok(Some(0))
-        },
-        None => if bond_kind == BondKind::Elided {
-            Ok(None)
-        } else {
-            Err(missing_character(scanner))
-        }
     }
 }
 
